@@ -63,7 +63,8 @@ func getUniqueKeyValue(rhs Context) (string, error) {
 
 	if rhs.MatchingNodes.Len() > 0 {
 		first := rhs.MatchingNodes.Front()
-		keyCandidate := first.Value.(*CandidateNode)
+		// an alias counts as the node it stands for
+		keyCandidate := first.Value.(*CandidateNode).unwrapAlias()
 		keyValue = keyCandidate.Value
 		if keyCandidate.Kind != ScalarNode {
 			keyValue, err = encodeToString(keyCandidate, encoderPreferences{YamlFormat, 0})
